@@ -94,9 +94,17 @@ SlotSeq(k, rot) ==
                   IN [n |-> Names[i], c |-> c, i |-> i, t |-> cl[((i + rot) % Len(cl)) + 1]]]
 
 WFamilies == {[k |-> k, rot |-> r] : k \in 0..8, r \in 0..(IF Thorough THEN 7 ELSE 2)}
+\* the same checks placed in the two arms of a match (the first witness in the `false` arm, the others in the `true`
+\* arm): a witness that occurs only in one arm is declared - and type-checked by satisfy - like any other
+ProgramArms(slots, sel) ==
+  <<Main(Blk(<<SExpr(EMatch(EBool(sel),
+                            <<Arm(MFalse, Blk(<<CheckStmt(slots[1])>>)),
+                              Arm(MTrue, Blk([i \in 1..(Len(slots) - 1) |-> CheckStmt(slots[i + 1])]))>>))>>))>>
 WProgramsOf(f) ==
   LET slots == SlotSeq(f.k, f.rot)
       ex == Exact(slots)
-  IN {[items |-> Program(slots), wdecls |-> [i \in 1..Len(slots) |-> <<slots[i].n, slots[i].t>>], args |-> EmptyFn,
-       space |-> <<AsFn(ex)>>, maps |-> MapsFor(slots), tag |-> "witness"]}
+      mk(items) == [items |-> items, wdecls |-> [i \in 1..Len(slots) |-> <<slots[i].n, slots[i].t>>], args |-> EmptyFn,
+                    space |-> <<AsFn(ex)>>, maps |-> MapsFor(slots), tag |-> "witness"]
+  IN {mk(Program(slots))}
+     \cup (IF f.k \in 2..4 THEN {mk(ProgramArms(slots, TRUE)), mk(ProgramArms(slots, FALSE))} ELSE {})
 =============================================================================
